@@ -12,6 +12,11 @@ func checkC19(r *Run) {
 		return
 	}
 	ruleA25(r, p)
+	// the caller hook is installed through Logger.Hook: a hook slice shared between sibling loggers
+	// makes one logger run the other's caller hook (wrong skip count, or none)
+	if lh := p.Method("", "Logger", "Hook"); r.Anchor(lh != nil, "HOOKS", "Logger.Hook") {
+		ruleHookAppend(r, p, lh)
+	}
 	r.Floor("A25", 30)
 	if r.Tier == "thorough" {
 		if pb := r.Use("B"); pb != nil {
